@@ -108,6 +108,20 @@ func BtcGov(r *kit.Run, rng *rand.Rand, pal *Palette) {
 	setParam(1, 12, 4000, all[:m-1])
 	setParam(1, 12, 4000, all[m-1:])
 	setParam(1, 12, 4000, all[:1]) // signatures already enough
+	// two DIFFERENT requests whose signature tallies are addressed by the same bytes: the tally key of
+	// setBtcTxParam is rk ‖ chain ‖ varuint(ver) ‖ varuint(fee) ‖ varuint(minChange), that of
+	// registerRedeem rk ‖ chain ‖ contract address ‖ target chain id. With a min-change >= 2^32 the
+	// parameter record ends in 0xff ‖ 8 bytes, so a binding to target chain == minChange with the
+	// 3-byte contract address {ver, fee, 0xff} names the same bytes. One signer signs the parameter
+	// change only, the others the binding only.
+	mc := uint64(1)<<32 + uint64(rng.Intn(1<<20))
+	fee := uint64(1 + rng.Intn(200))
+	setParam(2, fee, mc, all[:1])
+	rec := regRedeem(mc, []byte{2, byte(fee), 0xff}, 0, all[1:m])
+	if rec.Ok && len(rec.Notify) > 0 {
+		r.Count("btcgov_binding_applied_with_signatures_given_for_another_request", 1)
+	}
+	r.Count("btcgov_cross_request_tally_probe", 1)
 	for _, rec := range e.Log {
 		Track(r, rec.Ok, "btcgov:"+rec.Method, len(rec.WriteSet), len(rec.Notify))
 	}
